@@ -191,6 +191,18 @@ def run_impl(p):
                 r, c = sh.unravel_multi_index(np.arange(n))
                 return [[int(a), int(b)] for a, b in zip(r, c)]
             o["unravel"] = guarded(unr) if n else canon([])
+            def unr_perm():
+                # the same map for flat positions in ANY order (descending, a fixed shuffle, with repeats): position by position
+                import random as _r
+                if n > 3000:
+                    return "big"
+                idx = list(range(n)); _r.Random(n * 7 + len(p["lens"])).shuffle(idx)
+                outs = []
+                for q in (list(range(n))[::-1], idx, idx[: n // 2 + 1] + idx[: n // 2 + 1]):
+                    r, c = sh.unravel_multi_index(np.array(q, dtype=np.int64))
+                    outs.append([[int(a), int(b)] for a, b in zip(r, c)])
+                return outs
+            o["unravel_any_order"] = guarded(unr_perm) if n else canon([])
             def rav():
                 rc = [(r, c) for r, l in enumerate(p["lens"]) for c in range(l)]
                 if not rc:
@@ -355,6 +367,12 @@ def oracle(p):
         o["n_rows"] = canon(len(lens))
         rc = [[r, c] for r, l in enumerate(lens) for c in range(l)]
         o["unravel"] = canon(rc)
+        if rc and len(rc) <= 3000:
+            import random as _r
+            n_ = len(rc); idx = list(range(n_)); _r.Random(n_ * 7 + len(lens)).shuffle(idx)
+            o["unravel_any_order"] = canon([[rc[i] for i in q] for q in (list(range(n_))[::-1], idx, idx[: n_ // 2 + 1] + idx[: n_ // 2 + 1])])
+        else:
+            o["unravel_any_order"] = canon("big") if rc else canon([])
         o["ravel_idx"] = canon(list(range(sum(lens))))
         full = list(range(sum(lens)))
         o["ravel_idx_forms"] = canon([[True, v] for _ in range(4) for v in (full, [])])
